@@ -6,8 +6,8 @@ import re
 import sys
 
 sys.path.insert(0, os.path.dirname(os.path.dirname(os.path.abspath(__file__))))
-from vlib import build, gadata
-from vlib.common import Check, NCPU, main_guard, pmap, run
+from vlib import build, gadata, genmon, schemes
+from vlib.common import Check, NCPU, Rng, main_guard, pmap, run
 
 TSAN_ENV = {"TSAN_OPTIONS": "halt_on_error=0:report_signal_unsafe=0:history_size=4:second_deadlock_stack=1"}
 
@@ -73,6 +73,51 @@ def main():
         for k, blk in tsan_reports(err).items():
             tsan_classes[k] = tsan_classes.get(k, 0) + 1
             chk.violation(k, "ThreadSanitizer (threads=%d): %s" % (nt, blk[:900]), {"threads": nt, "report": blk})
+    # ---- (1b) TSan sweep: every thread walks every published background name and a sample of double-beta cells
+    table = schemes.ref_dbd_table()
+    rng = Rng(chk.seed, 1212)
+    cells = [(i, l, m) for i in sorted(table) for l in sorted(table[i]["levels"]) for m in range(1, 21)
+             if genmon.rule_accepts(table, i, l, m) and m not in genmon.EXPENSIVE]
+    exp_cells = [(i, l, m) for i in sorted(table) for l in sorted(table[i]["levels"]) for m in sorted(genmon.EXPENSIVE) if genmon.rule_accepts(table, i, l, m)]
+    pick = rng.sample(cells, 60 if quick else len(cells)) + rng.sample(exp_cells, 6 if quick else 120)
+    slines = ["B %s %s" % (n, " ".join("%.17g" % t for t in schemes.harvest_thresholds(schemes.parts_of(n)))) for n in schemes.background_names()]
+    slines += ["D %s %d %d" % c for c in pick]
+    # several processes, each a slice of the list (first-use races exist once per process; slices keep the wall time low)
+    nproc = 8 if quick else 16
+    sweep_jobs = []
+    for p in range(nproc):
+        sl = slines[p::nproc]
+        path = os.path.join(build.variant_dir("tsan"), "c12_sweep_%d_%d.spec" % (os.getpid(), p))
+        open(path, "w").write("\n".join(sl) + "\n")
+        sweep_jobs.append((p, [2, 4][p % 2], path, len(sl)))
+
+    def sweep(j):
+        p, nt, path, n = j
+        return j + run([exe_t, "sweep", str(chk.seed + p), str(nt), path, "12" if quick else "200"], timeout=3 * 3600, env=build.lib_env("tsan", dict(TSAN_ENV)))
+
+    sweep_cfgs = sweep_streams = sweep_refused = 0
+    for p, nt, path, n, rc, out, err in pmap(sweep, sweep_jobs, jobs=NCPU // 2):
+        os.unlink(path)
+        recs = [json.loads(l) for l in out.splitlines() if l.startswith("{")]
+        if rc is None or not recs:
+            if rc is not None and rc < 0:
+                chk.violation("sweep|signal%d" % -rc, "concurrent sweep died with signal %d (threads=%d): %s" % (-rc, nt, err[-600:]), {"threads": nt, "stderr": err[-3000:]})
+            else:
+                chk.inconclusive_("sweep process %d (threads=%d) gave no result (rc=%s): %s" % (p, nt, rc, err[-300:]))
+            continue
+        r = recs[0]
+        sweep_cfgs += r["configurations"]
+        sweep_streams += r["streams"]
+        sweep_refused += r["refused"]
+        for m in r["mismatches"]:
+            chk.violation(m["key"], "%s [threads=%d]" % (m["detail"], nt), {"threads": nt, "detail": m["detail"]})
+        if r["integration_with_handler_on"] > 0:
+            chk.violation("sweep|I1-integration-with-handler-on", "%d quadrature calls ran while the installed GSL error handler was not 'off' (threads=%d)" % (r["integration_with_handler_on"], nt), {"threads": nt})
+        for k, blk in tsan_reports(err).items():
+            tsan_classes[k] = tsan_classes.get(k, 0) + 1
+            chk.violation(k, "ThreadSanitizer (sweep, threads=%d): %s" % (nt, blk[:900]), {"threads": nt, "report": blk})
+    chk.require(sweep_cfgs >= len(slines), "the sweep covered only %d of %d configurations" % (sweep_cfgs, len(slines)))
+    chk.require(sweep_refused == 0, "%d sweep configurations were refused" % sweep_refused)
     # ---- (2) deterministic enumeration of the interleavings of the four schedule points
     exe_p = build.harness("plain", "c12_threads", ["c12_threads.cc"], extra_flags="-rdynamic", libs="-ldl")
     sched = {}
@@ -92,9 +137,11 @@ def main():
     chk.require(etol > 0, "the stress workload never made QNG return GSL_ETOL")
     nsched = sum(v["schedules"] for v in sched.values())
     chk.coverage.update({
-        "evaluations": streams + nsched,
+        "evaluations": streams + sweep_streams + nsched,
         "distinct_nontrivial": nsched + procs,
-        "rule": "stress: P fresh processes x T in {2,4,16} threads released by a barrier, each thread constructing, initialising and shooting its own "
+        "rule": "sweep: under ThreadSanitizer, 2 or 4 threads each walk all 69 published background names (i.i.d. tapes and branch thresholds steered) and a sample of "
+                "double-beta (isotope, level, mode) cells in different orders, so that every static object the library writes while generating is written by "
+                "several threads; thread streams from equal tapes must be equal; stress: P fresh processes x T in {2,4,16} threads released by a barrier, each thread constructing, initialising and shooting its own "
                 "generators (quadrature-heavy DBD modes incl. one whose QNG really returns GSL_ETOL, background, gA on synthetic data) with its own tape; "
                 "ThreadSanitizer build with interposed gsl_set_error_handler(_off)/gsl_integration_qng touching a shadow of GSL's global handler; every "
                 "thread's event stream must equal the stream of the same configuration run alone; half of the processes skip the sequential warm-up so "
@@ -103,6 +150,7 @@ def main():
                 "default handler never invoked); distinct = schedules enumerated + processes",
         "samples": [sample or {"note": "none"}, sched],
         "stress_processes": procs,
+        "sweep": {"processes": nproc, "configurations": sweep_cfgs, "thread_streams_compared": sweep_streams},
         "thread_streams_compared": streams,
         "events": events,
         "qng_calls": qng,
